@@ -164,5 +164,36 @@ func SolveAll(obls []*Obl, timeoutS int, par int) map[string]SolveResult {
 		}()
 	}
 	wg.Wait()
+	// second pass: a proof obligation that no solver decided in time is tried again, few at a time and with
+	// three times the timeout, before it is reported: on a loaded machine (24 solver processes racing on the
+	// first pass) wall-clock timeouts are otherwise mistaken for failed proofs. At most maxRetry obligations
+	// are retried, so a broken tree with many undecided obligations does not multiply the run time.
+	const maxRetry = 8
+	var again []*Obl
+	for _, o := range obls {
+		if r := out[o.Name]; o.Expect != "sat" && r.Status == "unknown" && !strings.Contains(r.Detail, "(error") && len(again) < maxRetry {
+			again = append(again, o)
+		}
+	}
+	sem2 := make(chan struct{}, 2)
+	for _, o := range again {
+		o := o
+		wg.Add(1)
+		sem2 <- struct{}{}
+		go func() {
+			defer wg.Done()
+			defer func() { <-sem2 }()
+			r := Solve(o.Name, o.Script, 3*timeoutS, o.ModelVars)
+			mu.Lock()
+			first := out[o.Name]
+			r.Ms += first.Ms
+			if r.Status == "unknown" {
+				r.Detail = "second pass (" + fmt.Sprint(3*timeoutS) + " s): " + r.Detail
+			}
+			out[o.Name] = r
+			mu.Unlock()
+		}()
+	}
+	wg.Wait()
 	return out
 }
